@@ -58,6 +58,8 @@ func ZZ_C17_Uint64(n int) {
 	// every spelling of a value that fits in 64 bits (leading zeros included)
 	zzvrf.Assert(zzvrf.Implies(zzvrf.And(wf, zzvrf.And(allhex, !ovf)), zzvrf.And(err == nil, uint64(v) == ref)), "quantity-exact")
 	zzvrf.Assert(zzvrf.Implies(zzvrf.And(wf, !allhex), err != nil), "non-hex-is-error")
+	// a quantity that does not fit in 64 bits is an error, never a wrapped value
+	zzvrf.Assert(zzvrf.Implies(zzvrf.And(wf, zzvrf.And(allhex, ovf)), err != nil), "overflowing-quantity-is-error")
 	zzvrf.Reach("end")
 }
 
